@@ -13,6 +13,7 @@ import (
 	"errors"
 	"io"
 	"net"
+	"sort"
 	"sync"
 )
 
@@ -223,6 +224,7 @@ type Conn struct {
 	closed   bool
 	closeErr error
 	OnOpen   func(s *Stream) // called for every stream this end opens (to install fault plans)
+	pending  map[uint64]func()
 	doneCh   chan struct{}
 }
 
@@ -252,7 +254,7 @@ func (c *Conn) OpenStream(ctx context.Context) (*Stream, error) {
 	c.streams = append(c.streams, local)
 	peer := c.peer
 	c.mu.Unlock()
-	announce := func() {
+	deliver := func() {
 		peer.mu.Lock()
 		peer.streams = append(peer.streams, remote)
 		closed := peer.closed
@@ -262,9 +264,35 @@ func (c *Conn) OpenStream(ctx context.Context) (*Stream, error) {
 		}
 	}
 	if c.mode.VisibleAtOpen {
-		announce()
+		deliver()
 	} else {
-		local.announce = announce
+		// RFC 9000 3.2: a frame for stream N implicitly opens all lower-numbered
+		// streams of the same type, so they become visible in id order
+		c.mu.Lock()
+		if c.pending == nil {
+			c.pending = map[uint64]func(){}
+		}
+		c.pending[id] = deliver
+		c.mu.Unlock()
+		local.announce = func() {
+			c.mu.Lock()
+			var ids []uint64
+			for k := range c.pending {
+				if k <= id {
+					ids = append(ids, k)
+				}
+			}
+			sort.Slice(ids, func(i, j int) bool { return ids[i] < ids[j] })
+			var fs []func()
+			for _, k := range ids {
+				fs = append(fs, c.pending[k])
+				delete(c.pending, k)
+			}
+			c.mu.Unlock()
+			for _, f := range fs {
+				f()
+			}
+		}
 	}
 	if c.OnOpen != nil {
 		c.OnOpen(local)
